@@ -124,7 +124,8 @@ def children_covered(mod: Mod, fn: ast.FunctionDef, param: str, is_collector, he
                 loop = v[2]
                 conds = conditions_for(fn, st, stop=loop, skip_raise_guards=True) if st is not None else None
                 early = any(isinstance(x, (ast.Break, ast.Return)) for s in loop.body for x in ast.walk(s))
-                if conds == [] and not early:
+                outer = conditions_for(fn, loop, skip_raise_guards=True)  # an early `return` before the loop makes the whole loop conditional
+                if conds == [] and not early and outer == []:
                     covered |= v[1]
                 else:
                     notes.append(f"collection of loop element {a.id} at line {c.lineno} is conditional or the loop can stop early")
@@ -245,6 +246,45 @@ def run_collector_rules(run: Run, w: World, modname: str, sum_like_helper: Optio
     def is_collector(c: ast.Call) -> bool:
         return isinstance(c.func, ast.Name) and c.func.id == entry
 
+    # ---- S7 the factor collected for a child is used: no path through an iteration forgets it
+    run.rule("S7", "inside every loop that collects its elements, the collected factor is put to use (appended / accumulated) on every path through the iteration: "
+             "a term may be exempt from the dimension comparison, never from the value")
+    for fn in [x for x in ast.walk(mod.tree) if isinstance(x, ast.FunctionDef)]:
+        cfg = None
+        for lp_ast in [x for x in ast.walk(fn) if isinstance(x, ast.For)]:
+            owner = next((g_ for g_ in ast.walk(fn) if isinstance(g_, ast.FunctionDef) and g_ is not fn and any(y is lp_ast for y in ast.walk(g_))), None)
+            if owner is not None:
+                continue  # handled when the inner function is visited
+            binds = [a_ for st_ in lp_ast.body for a_ in ast.walk(st_) if isinstance(a_, ast.Assign) and isinstance(a_.value, ast.Call) and is_collector(a_.value)
+                     and isinstance(a_.targets[0], ast.Tuple) and a_.targets[0].elts and isinstance(a_.targets[0].elts[0], ast.Name)]
+            if not binds:
+                continue
+            if cfg is None:
+                cfg = CFG(fn)
+            lp = next((n_ for n_ in cfg.stmt_nodes() if n_.kind == "for" and n_.ast is lp_ast), None)
+            if lp is None:
+                continue
+            for b_ in binds:
+                fname = b_.targets[0].elts[0].id
+                run.ob("S7", f"{modname}:{fn.name}:{fname}")
+
+                def uses(n_, fname=fname) -> bool:
+                    a_ = n_.ast
+                    if a_ is None or n_.kind in ("test", "for", "while"):
+                        return False
+                    if isinstance(a_, ast.Assign) and a_ is b_:
+                        return False
+                    loads = [y for y in ast.walk(a_) if isinstance(y, ast.Name) and y.id == fname and isinstance(y.ctx, ast.Load)]
+                    if not loads:
+                        return False
+                    if isinstance(a_, ast.Raise):
+                        return False
+                    return isinstance(a_, (ast.Assign, ast.AugAssign, ast.AnnAssign, ast.Return)) or \
+                        (isinstance(a_, ast.Expr) and isinstance(a_.value, ast.Call) and isinstance(a_.value.func, ast.Attribute) and a_.value.func.attr in ("append", "extend", "add", "insert"))
+                if not loop_passes(cfg, lp, uses):
+                    run.violate("S7", f"{modname}:{fn.name}:factor-dropped:{fname}", mod, lp_ast,
+                                f"in {fn.name} an iteration can complete without using `{fname}`, the factor collected for that child (a `continue` or branch skips it): the child "
+                                f"is left out of the value - e.g. an infinite or NaN term disappears from a sum")
     # ---- S2 dispatch order and completeness
     for kinds in REQUIRED_KINDS:
         run.ob("S2", f"{modname}:handles:{'/'.join(sorted(kinds))}")
